@@ -130,6 +130,9 @@ class DatagramEndpoint:
         return data_and_address
 
     async def sendto(self, data: bytes | bytearray | memoryview, address: tuple[Any, ...] | None = None, /) -> None:
+        if isinstance(data, memoryview) and (data.itemsize != 1 or data.ndim != 1):
+            # asyncio transports count the buffered data by items, then by bytes
+            data = data.cast("B")
         self.__transport.sendto(data, address)
         await self.__protocol._drain_helper()
 
